@@ -76,6 +76,8 @@ def collectors(ck, fb):
     ck.rule("C05.collect", "a circulator constructor that collects its elements (push_back/insert into a member list) leaves none of its loops early: no break / return inside a collecting loop (one audited exception: HalfFaceSheetHalfFaceIter's innermost common-halfedge search)")
     n = nl = 0
     seen = set()
+    canons = {}
+    from .canon import Canon
     for f in fb.repo_fns():
         if not f.has_cfg or f.kind != "ctor" or "Iter" not in (f.cls or "") or f.where in seen:
             continue
@@ -93,6 +95,13 @@ def collectors(ck, fb):
             early = sorted({bb for bb in body if bb != hdr and any(s_ is not None and s_ not in body for s_ in f.succ(bb))})
             t = f.term(hdr)
             cond = estr(f.resolve(t["cond"])) if t and t.get("cond") else ""
+            # a flag that is set in the body and tested in the loop condition is an early exit in disguise
+            if t and t.get("cond"):
+                cn = canons.setdefault(f.id, Canon(f))
+                for y in walk(f.resolve(t["cond"])):
+                    if isinstance(y, dict) and y.get("k") == "var" and cn.kind.get(y.get("id")) == "mut" and "bool" in (y.get("t") or ""):
+                        if any(m_[1] in body for m_ in cn.mods.get(y["id"], [])):
+                            early = sorted(set(early) | {m_[1] for m_ in cn.mods.get(y["id"], []) if m_[1] in body})
             depth = sum(1 for h2, b2, k2 in f.loops() if hdr in b2)
             exc = [why for (cls, dep), why in COLLECT_EXCEPTIONS.items() if cls == f.cls and dep == depth]
             if early and exc:
